@@ -24,6 +24,10 @@ class Tol:
         return self.rp * abs(vscale * iscale) + self.av * abs(iscale) + self.ai * abs(vscale) + 1e-15
 
 
+AMP_RTOL = 2e-5
+AMP_ATOL = 4e-8
+
+
 def within(x, iv, tol):
     return iv[0] - tol <= x <= iv[1] + tol
 
@@ -91,7 +95,7 @@ def physical(model, rows):
                     return False
             elif vo != 0 and vi != 0 and sgn(vo) != sgn(vi):
                 return False
-            if abs(vo) > abs(vi) * (1 + 1e-9) + 1e-12:
+            if abs(vo) > abs(vi) * (1 + AMP_RTOL) + AMP_ATOL:
                 return False
     return True
 
@@ -125,7 +129,7 @@ def check_table(model, table, ta, tol, enabled, out, stats, phase_arg=""):
                     k = model.kind(n)
                     if k in ("RLoss", "VLoss", "PSwitch", "PMux", "Rectifier", "Source"):
                         vi, vo = r["Vin (V)"], r["Vout (V)"]
-                        bad = (k == "Rectifier" and vo < 0) or (k != "Rectifier" and vo != 0 and vi != 0 and sgn(vo) != sgn(vi)) or abs(vo) > abs(vi) * (1 + 1e-9) + 1e-12
+                        bad = (k == "Rectifier" and vo < 0) or (k != "Rectifier" and vo != 0 and vi != 0 and sgn(vo) != sgn(vi)) or abs(vo) > abs(vi) * (1 + AMP_RTOL) + AMP_ATOL
                         if bad:
                             out.append(("C03", "series-inverted-or-amplified", "phase %r %s (%s): Vin=%r Vout=%r" % (ph, n, k, vi, vo)))
                             break
